@@ -39,6 +39,12 @@ def enumerate_cases(tier: str, seed: int) -> list[dict[str, Any]]:
         cases.append({"key": f"fn:{name}", "src": "fn", "name": name, "cost": 1.0})
     for name in _fold_programs():
         cases.append({"key": f"fold:{name}", "src": "fold", "name": name, "cost": 1.0})
+    # structural sentinels: axis sweeps, contraction layouts, permutations (the lowering stamps shapes by hand there)
+    from vlib import sentinels
+
+    for name in sentinels.table():
+        if name.startswith(("axis3_", "axis4_", "dot_general", "einsum", "transpose", "idx_", "index")):
+            cases.append({"key": f"sent:{name}", "src": "sentinel", "name": name, "cost": 0.5})
     return recs.only_filter(cases)
 
 
@@ -151,6 +157,10 @@ def _prog_for(case: dict[str, Any]) -> tuple[programs.Program, list[list[np.ndar
     """(program, explicit feeds or None)"""
     if case["src"] == "registry":
         return programs.from_registry(registry.by_pid(case["pid"])), None
+    if case["src"] == "sentinel":
+        from vlib import sentinels
+
+        return sentinels.build(case), None
     if case["src"] == "shape":
         from checks import c04
 
